@@ -51,6 +51,8 @@ class Ctx:
         self.pc = []
         self.notes = {}
         self.hash_order = 'canonical'
+        self.feas_timeout_ms = 5000
+        self.unknown_feasible = 0
 
     # -- path management
     def start(self, prefix):
@@ -80,11 +82,20 @@ class Ctx:
         return r == z3.sat
 
     def feasible(self, c=None):
-        if c is None:
-            return self._check()
+        """satisfiability of pc (and c). A solver 'unknown' is treated as 'possibly feasible': exploring a path that is
+        in fact infeasible is sound (its obligations are vacuous; a spurious model cannot survive the native replay)."""
         if isinstance(c, bool):
-            return c
-        return self._check(c)
+            if not c:
+                return False
+            c = None
+        self.solver.set('timeout', self.feas_timeout_ms)
+        try:
+            return self._check(*([] if c is None else [c]))
+        except Inconclusive:
+            self.unknown_feasible += 1
+            return True
+        finally:
+            self.solver.set('timeout', self.timeout_ms)
 
     def branch(self, cond):
         """decide a (possibly symbolic) boolean; forks the exploration when both sides are feasible"""
@@ -699,6 +710,9 @@ class Interp:
             return bytes(text[1:-1], 'utf-8').decode('unicode_escape') if '\\' in text else text[1:-1]
         if text.startswith('b"'):
             return Opaque('bytes', text)
+        if text.startswith('std::iter::Empty::<'):
+            from .models import list_iter
+            return list_iter([])
         if text.startswith("'"):
             s = text[1:-1]
             if s.startswith('\\'):
